@@ -766,6 +766,23 @@ func slotVariant(r *core.Run, prop string, m *spec.Msg, pd *spec.PDU, field stri
 		r.Fail(prop, "decode", site, "slot-sweep/refused", "octet %#x at position %d of %s: a well-formed image is refused: %v", x, p, field, err)
 		return false
 	}
+	if prop == "C11" {
+		// the relay's clause: what was decoded from a canonical image encodes to that image again
+		var again []byte
+		if pp := r.Call(site+".IEncode", func() { again, err = fresh.IEncode() }); pp != nil {
+			r.Fail(prop, "panic", pp.Frame, "reencode/"+pp.Kind, "slot sweep: re-encoding %s with octet %#x at position %d of %s: %s", site, x, p, field, pp.Value)
+			return false
+		}
+		if err != nil {
+			r.Fail(prop, "reencode", site, "error", "slot sweep: octet %#x at position %d of %s: the decoded image cannot be encoded again: %v", x, p, field, err)
+			return false
+		}
+		if !bytes.Equal(again, img) {
+			r.Fail(prop, "canonical", site, "octets", "slot sweep: octet %#x at position %d of %s: re-encoding the decoded canonical image gives other octets (%d vs %d)", x, p, field, len(again), len(img))
+			return false
+		}
+		return true
+	}
 	got := FromGo(fresh, pd, true)
 	got.CmdID = m.CmdID
 	for _, name := range spec.Diff(m, got) {
